@@ -16,6 +16,7 @@ RULE = (
     "ca_certs=rogueCA, ca_cert_path, custom context trusting testCA, custom unverified context} x server_hostname {absent, "
     "localhost, other.test} x WEBSOCKET_CLIENT_CA_BUNDLE {unset, file, dir, nonexistent; only without user trust options} x "
     "URL {wss://localhost, wss://127.0.0.1, ws://localhost} x {direct, through a local CONNECT proxy} x server certificate; "
+    "plus wss targets reached through a 302 from ws:// {same port, other port} x {connection kept open, Connection: close} x trust x {default, CERT_NONE, check_hostname=False, NONE+True} x certificate; "
     "plus ssl_version {PROTOCOL_TLS, PROTOCOL_TLSv1_2} x trust x cert_reqs x check_hostname x certificate. "
     "Non-trivial: wss cases in which at least one of the two checks (chain, host name) is active, and configuration errors. "
     "Distinct = the configuration (enumeration without repeats)."
@@ -110,6 +111,14 @@ def run_case(c):
     if c["proxy"]:
         kw.update(http_proxy_host="127.0.0.1", http_proxy_port=rig.proxy.port)
     url = f"{c.get('spelling') or c['scheme']}://{c['host']}:{target.port}/tls"
+    via = c.get("via")
+    if via:
+        # the wss target is reached through a redirect from a plain ws:// endpoint (same port or the TLS endpoint's port)
+        red = rig.redirect
+        red.use_cert, red.keep_alive = c["cert"], c.get("keep_alive", True)
+        tport = red.port if via == "same-port" else target.port
+        red.location = f"wss://{c['host']}:{tport}/tls".encode()
+        url = f"ws://{c['host']}:{red.port}/start"
     raised, ws = None, None
     try:
         try:
@@ -141,6 +150,8 @@ def run_case(c):
         obs.cls = ("scheme-case", "refused")
         obs.nt = repr(sorted(c.items()))
         return obs
+    if via:
+        return _judge_redirect(c, obs, rig, target, before, raised, url)
     need = [target] + ([rig.proxy] if c["proxy"] else [])
     end = _t.time() + 8.0
     while _t.time() < end and not all(e.counts()[1] >= before[id(e)] + 1 for e in need):
@@ -199,6 +210,64 @@ def run_case(c):
     return obs
 
 
+def _judge_redirect(c, obs, rig, target, before, raised, url):
+    import time as _t
+
+    import websocket
+
+    red = rig.redirect
+    via = c["via"]
+
+    def wait(e, k):
+        end = _t.time() + 8.0
+        while _t.time() < end and e.counts()[1] < before[id(e)] + k:
+            _t.sleep(0.002)
+        return e.counts()[1] >= before[id(e)] + k
+
+    if not wait(red, 1):
+        raise HarnessError(f"TLS rig (redirector) did not settle (wall-clock) - inconclusive; cfg={c}")
+    with red.lock:
+        plain_second = any(b"\r\n\r\n" in (r.get("second_plain") or b"") for r in red.records)
+    if via == "other-port" and not plain_second and not wait(target, 1):
+        raise HarnessError(f"TLS rig (target) did not settle (wall-clock) - inconclusive; cfg={c}")
+    if not rig.settle(6.0):
+        raise HarnessError(f"TLS rig did not settle (wall-clock) - inconclusive; cfg={c}")
+    if isinstance(raised, (websocket.WebSocketTimeoutException, TimeoutError)) or "timed out" in str(raised or ""):
+        raise HarnessError(f"wall-clock socket timeout during {c}: inconclusive")
+    rrecs = red.take()
+    trecs = target.take() if via == "other-port" else [r for r in rrecs if r.get("plain_request") is None]
+    hops = [r for r in rrecs if r.get("plain_request") is not None]
+    others = [e for e in rig.all() if e is not red and not (via == "other-port" and e is target) and e.take()]
+    exp, why = expected(c)
+    tag = f"wss|redirect-{via}"
+    if others:
+        obs.fail(f"{tag}|wrong-endpoint-contacted", f"{c}")
+    if not any(r["plain_request"].startswith(b"GET /start ") for r in hops):
+        obs.fail(f"{tag}|first-hop-not-seen", f"{[r.get('plain_request', b'')[:30] for r in rrecs]}")
+    leaked = [r for r in hops if b"\r\n\r\n" in (r.get("second_plain") or b"") or r["plain_request"].startswith(b"GET /tls")]
+    if leaked:
+        obs.fail(f"{tag}|wss-hop-sent-in-plaintext", f"the request for {red.location!r} arrived unencrypted: {(leaked[0].get('second_plain') or leaked[0]['plain_request'])[:40]!r}; cfg={c}")
+    rec = trecs[-1] if trecs else None
+    decrypted = bool(rec and rec["request"])
+    if exp == "accept":
+        if raised is not None:
+            obs.fail(exc_bucket(f"{tag}|valid-configuration-refused|{why}", raised), f"{type(raised).__name__}: {raised}; cfg={c}")
+        elif not decrypted:
+            obs.fail(f"{tag}|connected-but-tls-server-saw-no-request", f"cfg={c}")
+    else:
+        if raised is None:
+            obs.fail(f"{tag}|{why}|accepted", f"connect() returned although the reference decision is {exp} ({why}); cfg={c}")
+        if decrypted:
+            obs.fail(f"{tag}|{why}|websocket-data-sent-to-unauthenticated-peer", f"server decrypted {rec['request'][:40]!r}; cfg={c}")
+    if rec is not None and rec["first"] and not rec["first"].startswith(b"\x16\x03"):
+        obs.fail(f"{tag}|wss-stream-not-tls-from-first-byte", f"first bytes {rec['first']!r}")
+    obs.cls = ("wss", f"redirect-{via}", f"cert:{c['cert']}", f"trust:{c['trust']}", f"exp:{exp}", f"why:{why}", f"cert_reqs:{c.get('cert_reqs')}",
+               f"check_hostname:{c.get('check_hostname')}", f"keep_alive:{c.get('keep_alive', True)}")
+    active = exp == "config-error" or c.get("cert_reqs") != "NONE"
+    obs.nt = repr(sorted(c.items())) if active else None
+    return obs
+
+
 def configs():
     for cert, proxy in itertools.product(("good", "other", "rogue"), (False, True)):
         # ws:// never wrapped (TLS options must be irrelevant)
@@ -227,6 +296,14 @@ def configs():
             for proxy in (False, True):
                 yield {"scheme": "wss", "spelling": sp, "host": "localhost", "cert": cert, "proxy": proxy, "trust": "ca_certs=testca", "cert_reqs": None,
                        "check_hostname": None, "server_hostname": None, "env": None}
+    # a wss target reached through a redirect from ws:// (same host; same or other port; connection kept open or not) is a wss target
+    for cert in ("good", "other", "rogue"):
+        for via in ("same-port", "other-port"):
+            for ka in (True, False):
+                for trust in ("none", "ca_certs=testca", "ca_certs=rogueca"):
+                    for cr, ch in ((None, None), ("NONE", None), ("REQUIRED", False), ("NONE", True)):
+                        yield {"scheme": "wss", "via": via, "keep_alive": ka, "host": "localhost", "cert": cert, "proxy": False, "trust": trust, "cert_reqs": cr,
+                               "check_hostname": ch, "server_hostname": None, "env": None}
     # the documented ssl_version option must not change what is verified
     import warnings
 
